@@ -44,6 +44,9 @@ def run(ctx, col, tier):
                   stmt="pure")
         recursion_free(ctx, col, "R-CG", [q], f"recursion-free from {q.split('.')[-1]}")
 
+    col.guard(anchored, ctx, col)
+    from .c05 import tree_gather_keys
+    col.guard(tree_gather_keys, ctx, col, "R-CAT")
     col.guard(reroot, ctx, col)
     col.guard(cat, ctx, col)
 
@@ -151,7 +154,7 @@ def cat(ctx, col):
     elif not any(isinstance(x, ast.Call) and (dotted(x.func) or "").endswith(("norm", "allclose", "isclose", "distance")) for x in ast.walk(t)):
         col.bad("R-SENT", q, d.loc(mi), "junction nodes are merged iff they coincide (distance between the two junction nodes below the tolerance)",
                 f"the merge / link decision is `{tsrc}`, which does not look at the positions of the two junction nodes: "
-                f"coincident junctions are duplicated (or distinct ones merged)", stmt="merge-test")
+                f"coincident junctions are duplicated (or distinct ones merged)", stmt="merge-test", definite=True)
     else:
         col.unresolved("R-SENT", q, d.loc(mi), "junction nodes are merged iff they coincide", f"merge test `{tsrc}` not understood", stmt="merge-test")
     def assigns(body):
@@ -235,3 +238,60 @@ def cat(ctx, col):
     col.check(len(cp) == 1 and [norm_src(e) for e in cp[0].targets[0].elts] == ["tree", "tree2"], "R-CAT", q,
               d.loc(cp[0]) if cp else d.loc(), "both inputs are copied first", "", "inputs are not both copied before use",
               stmt="copies")
+
+
+def anchored(ctx, col):
+    """Statements that carry the clauses, matched three-way under one renaming per function."""
+    repo = ctx.repo
+    d = repo.get_def(f"{TU}.redirect_tree")
+    col.text_group("R-REROOT", d.qualname, d, [
+        ("works on a copy", ["tree = tree.copy()"], "copy"),
+        ("the chain starts at the requested node", ["path = [tree.node(new_root)]"], "start"),
+        ("... and follows parents up to the old root", ["while (p := path[-1].parent()) is not None: path.append(p)"], "climb"),
+        ("the new root has no parent", ["path[0].pid = -1"], "root-marker"),
+        ("only the types of the old and the new root are exchanged", ["path[0].type, path[-1].type = path[-1].type, path[0].type"], "type-swap"),
+        ("each chain node's parent becomes its former child on the chain", ["for n, p in zip(path[1:], path[:-1]): n.pid = p.id"], "reverse"),
+        ("renumbering only when requested", ["if sort: _sort_tree(tree)"], "sort"),
+        ("the re-rooted copy is returned", ["return tree"], "ret"),
+    ], fixed=("new_root", "sort", "_sort_tree"))
+    # write set: `.type` may be stored only for the two ends of the chain (never inside a loop over the chain)
+    for n in own_nodes(d):
+        if isinstance(n, (ast.For, ast.While)):
+            for st in ast.walk(n):
+                tg = st.targets if isinstance(st, ast.Assign) else ([st.target] if isinstance(st, ast.AugAssign) else [])
+                for t in tg:
+                    for tt in (t.elts if isinstance(t, ast.Tuple) else [t]):
+                        if isinstance(tt, ast.Attribute) and tt.attr == "type":
+                            col.bad("R-REROOT", d.qualname, d.loc(st), "only the types of the old and the new root are exchanged",
+                                    f"`{norm_src(st)}` inside `{norm_src(n)[:50]}...` stores the type of every node along the root path: "
+                                    f"interior nodes of the path change type", stmt="type-swap", definite=True)
+    c = repo.get_def(f"{TU}.cat_tree")
+    col.text_group("R-CAT", c.qualname, c, [
+        ("both inputs are copied", ["tree, tree2 = tree1.copy(), tree2.copy()"], "copies"),
+        ("the second tree is re-rooted at its junction unless the junction already is its root, without renumbering",
+         ["if not tree2.node(node2).is_root(): tree2 = redirect_tree(tree2, node2, sort=False)"], "reroot"),
+        ("the junction of the first tree", ["c = tree.node(node1)"], "junction"),
+        ("x translation", ["tree2.ndata[names.x] -= tree2.node(node2).x - c.x"], "tx"),
+        ("y translation", ["tree2.ndata[names.y] -= tree2.node(node2).y - c.y"], "ty"),
+        ("z translation", ["tree2.ndata[names.z] -= tree2.node(node2).z - c.z"], "tz"),
+        ("the shift is the first tree's node count", ["ns = tree.number_of_nodes()"], "shift"),
+        ("merge: the second root is deleted ...", ["remove = [node2 + ns]"], "merge-remove"),
+        ("... and its children are linked to the junction", ["link_to_root = [n.id + ns for n in tree2.node(node2).children()]"], "merge-link"),
+        ("no merge: the second root itself is linked", ["link_to_root = [node2 + ns]"], "link"),
+        ("ids of the second tree are shifted", ["tree2.ndata[names.id] += ns"], "shift-id"),
+        ("parent ids of the second tree are shifted by the same amount", ["tree2.ndata[names.pid] += ns"], "shift-pid"),
+        ("columns are appended first-tree-first", ["tree.ndata[k] = np.concatenate([v, tree2.ndata[k]])"], "concat"),
+        ("every link target gets the junction node as parent", ["for n in link_to_root: tree.node(n).pid = node1"], "relink"),
+        ("the merged root is deleted from every column", ["tree.ndata[k] = np.delete(v, remove)"], "delete"),
+        ("the result is renumbered", ["_sort_tree(tree)"], "sort"),
+    ], fixed=("tree1", "node1", "node2", "names", "translate", "redirect_tree", "_sort_tree"))
+    # the re-root guard must test root-ness of the junction, not its id: the second tree's root need not be node 0
+    for n in own_nodes(c):
+        if isinstance(n, ast.If) and any(isinstance(x, ast.Call) and dotted(x.func) == "redirect_tree" for s in n.body for x in ast.walk(s)):
+            t = n.test
+            by_id = isinstance(t, ast.Compare) and len(t.ops) == 1 and isinstance(t.ops[0], (ast.NotEq, ast.Eq, ast.Gt)) and \
+                {norm_src(t.left), norm_src(t.comparators[0])} & {"0"} and "node2" in norm_src(t) and "is_root" not in norm_src(t) and "pid" not in norm_src(t)
+            if by_id:
+                col.bad("R-CAT", c.qualname, c.loc(n), "the second tree is re-rooted at its junction unless the junction already is its root",
+                        f"`if {norm_src(t)}` decides by the junction's id: a second tree whose root is not node 0 (e.g. re-rooted without "
+                        f"renumbering) is then joined at a non-root node without being re-rooted", stmt="reroot", definite=True)
